@@ -93,6 +93,39 @@ def pairs(draw, pf):
     return (spec, k)
 
 
+@st.composite
+def year_weekly_pairs(draw):
+    """Region: a project of 52-56 weeks that begins in the first days of January of a year whose last days belong to
+    ISO week 1 of the next year (or that has a week 53), a resource (or group, or task) under a small weeklymax,
+    work at the very beginning and work pinned to the last days of December - the two periods that a counter keyed
+    by (calendar year, ISO week) would confuse."""
+    from ..spec import Limit, ProjectSpec, Res, Task
+
+    year = draw(st.sampled_from([2024, 2025, 2026, 2029, 2030, 2020, 2032]))
+    start = datetime(year, 1, 1) + timedelta(days=draw(st.integers(0, 6)))
+    res_min = 60
+    lim = Limit("weeklymax", str(draw(st.integers(2, 12))), "h")
+    r0 = Res("r0")
+    spec = ProjectSpec(start=start, dur=(draw(st.integers(52, 56)), "w"), res_min=res_min, resources=[r0])
+    where = draw(st.integers(0, 2))
+    if where == 0:
+        r0.limits = [lim]
+    elif where == 1:
+        spec.resources = [Res("grp", limits=[lim], children=[r0, Res("r1")])]
+    early = Task("early", effort=(str(draw(st.integers(4, 30))), "h"), alloc=["r0"], priority=900)
+    dec = datetime(year, 12, draw(st.integers(27, 31)), 9, 0)
+    late = Task("late", effort=(str(draw(st.integers(2, 20))), "h"), alloc=["r0"], start=dec)
+    if where == 2:
+        g = Task("g", limits=[lim], children=[early, late])
+        spec.tasks = [g]
+    else:
+        spec.tasks = [early, late]
+    if draw(st.booleans()):
+        spec.tasks.append(Task("mid", effort=(str(draw(st.integers(1, 40))), "h"), alloc=["r0"], start=datetime(year, draw(st.integers(3, 11)), 3, 9, 0)))
+    k = draw(st.sampled_from(OFFSETS))
+    return (spec, k)
+
+
 def _special_points(a, b):
     """Does [a, b] contain a year end, a 29 Feb or days of an ISO week 53?"""
     t = a
@@ -154,6 +187,8 @@ def campaigns(tier):
         Campaign("subslot", "hyp", evaluate=eval_pair, strategy=lambda: pairs(PF_SUB), n=300 if q else 6000, describe="sub-slot efforts"),
         Campaign("gap_month_year", "hyp", evaluate=eval_pair, strategy=lambda: pairs(PF_GAPMY), n=100 if q else 2500,
                  describe="gapduration written in months / years (fixed-length units: the gap must not depend on the calendar position)"),
+        Campaign("year_weekly", "hyp", evaluate=eval_pair, strategy=year_weekly_pairs, n=150 if q else 3000,
+                 describe="region: one-year projects with a weekly limit, work in the first week of January and in the last days of December of the same year"),
         Campaign("long", "hyp", evaluate=eval_pair, strategy=lambda: pairs(PF_LONG), n=60 if q else 1500,
                  describe="projects spanning more than a year (several ISO years inside one horizon)"),
     ]
